@@ -7,7 +7,7 @@ from __future__ import annotations
 import z3
 
 from pyvc.core import (SV, SBool, SInt, Obj, Val, VNone, BoolS, IntS, Cls, to_val, cls_of, sub, cls_const, class_axioms, Stub)
-from pyvc.driver import Ob
+from pyvc.driver import Ob, cover_hyps
 from pyvc.ground import Q
 from pyvc.stmt import LoopSpec
 from pyvc.env import _MISSING
@@ -145,7 +145,7 @@ def obligations(chk):
                        {"outcome": out.kind, "why": str(out.value if out.kind == "unsupported" else out.exc.exc_cls)}))
     if n_ret == 0:
         chk.errors.append("unwrap: no returning path explored")
-    chk.add(Ob(func, "cover", "pre", results[0][0].hyps, z3.BoolVal(True), expect="sat"))
+    chk.add(Ob(func, "cover", "pre", cover_hyps(results), z3.BoolVal(True), expect="sat"))
     # lemma (induction on wrapper depth): base is idempotent
     t = z3.Const("t_ind", Val)
     ih = Q([Val], lambda s_: z3.Implies(depth(s_) < depth(t), base(base(s_)) == base(s_)), name="induction-hypothesis")
